@@ -1,0 +1,19 @@
+//go:build verif
+
+package ioutils
+
+// Contracts checked by /verif/gocv (comment-only file; see /verif/DESIGN.md §3).
+
+// The close hook releases a resource shared with other readers (the read transaction of a multi-range GET): however
+// often one reader is closed, its hook runs at most once; and the first Close does run it.
+//@ func verifCloseTwice
+//@ mode effects
+//@ inline (*readCloserWithCloseHook).Close
+//@ effect[C36:hook-at-most-once] every r.onClose() forbids before r.onClose()
+//@ ensures[C36:first-close-runs-hook] r.onClose != nil ==> called(r.onClose)
+
+//@ func verifSeekCloseTwice
+//@ mode effects
+//@ inline (*readSeekCloserWithCloseHook).Close
+//@ effect[C36:hook-at-most-once] every r.onClose() forbids before r.onClose()
+//@ ensures[C36:first-close-runs-hook] r.onClose != nil ==> called(r.onClose)
